@@ -166,3 +166,30 @@ Fixpoint c20_classes (r : rstate) (seen : list (bool * N)) (h : list (uop * uout
 
 Definition c20_class_code (c : nat * bool * list (uop * uout)) : N :=
   let '(_, _, h) := c in (c20_classes rinit [] h * 4)%N.
+
+(* ---- C10: expiry seen through the reports of a cleaning pass ----
+   torrents = stored torrents after the pass; peers = unexpired peers (counted before forbidden
+   torrents are dropped, as the implementation does - see the C20 finding) *)
+Definition unexpired_total (r : rstate) (seen : list (bool * N)) (now : N) (v6 : bool) : nat :=
+  list_sum (map (fun x => length (ref_clean now (r v6 (snd x)))) (filter (fun x => Bool.eqb (fst x) v6) seen)).
+
+Fixpoint mon10_history (max_resp : nat) (r : rstate) (seen : list (bool * N)) (i : N) (h : list (uop * uout)) : option N :=
+  match h with
+  | [] => None
+  | (op, out) :: rest =>
+      let r' := fst (r_step r op) in
+      let seen' := match op with UAnnounce v6 hh _ _ _ _ _ _ _ _ => add_seen (v6, hh) seen | _ => seen end in
+      let ok :=
+        mon_op 1%N max_resp r op out
+        && match op, out with
+           | UClean now _ _, OClean t4 p4 t6 p6 _ _ =>
+               Nat.eqb t4 (fst (stored_total r' seen' false)) && Nat.eqb t6 (fst (stored_total r' seen' true))
+               && Nat.eqb p4 (unexpired_total r seen' now false) && Nat.eqb p6 (unexpired_total r seen' now true)
+           | _, _ => true
+           end in
+      if ok then mon10_history max_resp r' seen' (N.succ i) rest else Some i
+  end.
+
+Definition mon_c10 (c : nat * bool * list (uop * uout)) : N :=
+  let '(max_resp, _, h) := c in
+  (match mon10_history max_resp rinit [] 0%N h with None => 0 | Some i => N.succ i end * 4)%N.
